@@ -277,7 +277,17 @@ func c14Run(tier string, seed int64, idx int) *core.Result {
 	}
 	h.Install()
 	goat.VerifResetTracking()
-	b := bed.New(bed.Opts{Cap: c.Cap, Serialise: c.Ser})
+	topo := ""
+	if idx%10 == 7 {
+		// the same kind of history relayed by a proxy (client - proxy - Demux - Serve), at most 4 RPCs at
+		// a time (the proxy's per-destination buffer): whatever ends an RPC must reach the server
+		topo = "proxy"
+		if c.PerRound > 4 {
+			c.PerRound = 4
+		}
+		res.Stat("histories_through_proxy", 1)
+	}
+	b := bed.New(bed.Opts{Cap: c.Cap, Serialise: c.Ser, Topology: topo})
 	cc := b.Conns[0]
 	end := b.Links[0].A
 	gates := NewGates()
@@ -315,11 +325,21 @@ func c14Run(tier string, seed int64, idx int) *core.Result {
 				return false
 			}
 		}
+		for _, k := range goat.VerifServerUnaryTracked() {
+			if k != 0 {
+				res.Violate("server-unary-registration-leak/"+what, "round %d: %d unary handlers still tracked (cancel functions registered) on the server connection with no RPC in flight", round, k)
+				return false
+			}
+		}
 		if n != baseline {
 			res.ViolateD("goroutine-leak/"+what, map[string]any{"goroutines": goatParked(snap)}, "round %d: %d goroutines with goat frames at a quiescent point, idle level is %d (after %s)", round, n, baseline, what)
 			return false
 		}
 		return true
+	}
+	if topo == "proxy" {
+		// the proxy dials the server on first use: let that happen before the idle level is taken
+		svc.Invoke(context.Background(), cc, fmt.Sprintf("warm%d", idx), []byte("x"))
 	}
 	if !sample(-1, "setup") {
 		finish(tier, b, h, res)
@@ -586,12 +606,12 @@ func init() {
 	core.Register(&core.Prop{
 		ID:       "C14",
 		Level:    "exploration",
-		Rule:     "each case is one long history on ONE connection: rounds of 1..32 concurrent RPCs with outcomes drawn from {unary ok/error/cancel/deadline, stream ok/error/cancel/deadline/server-reset/early-return/cancel-with-responses-unread-and-never-touched-again/send of an unencodable message with a live context/unary call made after its deadline had passed} x 3 stream kinds, plus (every 4th round) opens whose transport write fails and a stream whose send fails once in the transport write; after every round the driver waits for a provably final state and samples client registry size, server stream registry size and the number of goroutines with goat frames against the idle level. evaluations = RPCs executed; every 10th case is instead 8 library-aborted streams (unencodable message, caller context alive) in the interleaving where the aborting goroutine is held at a hook between unregistering the stream and cancelling its context until the read loop has finished; every 10th case is instead a history against a SCRIPTED server on one connection, alternating {caller cancelled / deadline fired while its send is blocked by transport back-pressure with m in 3..6 responses unread} and {first response undecodable, caller stops without cancelling, m-1 more follow}, each followed by a unary probe, sampled the same way. a case is non-trivial when all 14 outcome classes occurred in its history; distinct = distinct (parameters, seed index).",
+		Rule:     "each case is one long history on ONE connection: rounds of 1..32 concurrent RPCs with outcomes drawn from {unary ok/error/cancel/deadline, stream ok/error/cancel/deadline/server-reset/early-return/cancel-with-responses-unread-and-never-touched-again/send of an unencodable message with a live context/unary call made after its deadline had passed} x 3 stream kinds, plus (every 4th round) opens whose transport write fails and a stream whose send fails once in the transport write; after every round the driver waits for a provably final state and samples client registry size, server stream registry size, the server's table of tracked unary handlers and the number of goroutines with goat frames against the idle level. evaluations = RPCs executed; every 10th case runs its history through a proxy (at most 4 RPCs at a time); every 10th case is instead 8 library-aborted streams (unencodable message, caller context alive) in the interleaving where the aborting goroutine is held at a hook between unregistering the stream and cancelling its context until the read loop has finished; every 10th case is instead a history against a SCRIPTED server on one connection, alternating {caller cancelled / deadline fired while its send is blocked by transport back-pressure with m in 3..6 responses unread} and {first response undecodable, caller stops without cancelling, m-1 more follow}, each followed by a unary probe, sampled the same way. a case is non-trivial when all 14 outcome classes occurred in its history; distinct = distinct (parameters, seed index).",
 		Plan:     func(tier string, seed int64) int { return tierN(tier, 80, 640) },
 		Run:      c14Run,
 		MaxStats: []string{"idle_goat_goroutines"},
 		RequiredStats: func(string) []string {
-			return []string{"sample_points", "failed_opens", "sample_points_after_all_outcomes", "scripted_sample_points", "library_aborts_with_teardown_parked"}
+			return []string{"sample_points", "failed_opens", "sample_points_after_all_outcomes", "scripted_sample_points", "library_aborts_with_teardown_parked", "histories_through_proxy"}
 		},
 	})
 }
